@@ -320,6 +320,7 @@ register("C03", title="serialization is complete", engine="irc-history-engine", 
          floor={"quick": 2000, "thorough": 50000},
          technique="differential: instance vs. Unmarshal(Marshal(instance)), structure walk + behavioural continuation")
 register("C17", title="session lifecycle", engine="irc-history-engine", pkg="./internal/ircserver",
+         rule_more='sweep on a state reloaded from a snapshot, PING-only sessions; end-without-reason and pseudo-client-QUIT monitors; TestVerifC17Leader: lookups on a leader that has applied only a prefix of its log',
          parts=[{"test": "^TestVerifC17$", "children": {"quick": 8, "thorough": 16}, "cases": {"quick": 30, "thorough": 400}},
                 {"test": "^TestVerifC17Concurrent$", "children": {"quick": 2, "thorough": 8}, "cases": {"quick": 30000, "thorough": 400000}},
                 {"test": "^TestVerifIRC$", "children": {"quick": 8, "thorough": 16}, "cases": {"quick": 150, "thorough": 3000}},
@@ -372,6 +373,7 @@ register("C08", title="output stream next-message lookup", pkg="./internal/outpu
 
 
 register("C09", title="LevelDB store honours LogStore / StableStore", pkg="./internal/raftstore",
+         rule_more='logs of 150-450 entries with single long DeleteRange calls; 8 readers and 1 writer on one store under the race detector, every entry read is compared',
          parts=[{"test": "^TestVerifC09$", "children": {"quick": 16, "thorough": 16}, "cases": {"quick": 40, "thorough": 2500}},
                 {"test": "^TestVerifC09Concurrent$", "name": "raftstore_race", "race": True, "may_die": True, "children": {"quick": 2, "thorough": 8}, "cases": {"quick": 4, "thorough": 30}}],
          post_run=race_post_run("raftstore", "data race inside the log store while raft's readers and its writer use it concurrently (a reader can be handed another entry's fields)"),
@@ -406,6 +408,7 @@ def c19_post_run(vc, scr, spec, res, children):
 
 
 register("C19", title="time safeguard", pkg="./internal/timesafeguard", post_run=c19_post_run,
+         rule_more='peers in every raft state; join target other than the leader; cluster -safeguard: the time a real node reports lies inside the request window; the real binary restarted against fake TLS peers (skewed/slow/silent/in sync) must exit before any raft request reaches a peer',
          parts=[{"test": "^TestVerifC19$", "children": {"quick": 8, "thorough": 16}, "cases": {"quick": 60000, "thorough": 1500000}},
                 {"test": "^TestVerifC19Real$", "children": {"quick": 4, "thorough": 16}, "cases": {"quick": 12, "thorough": 60}},
                 {"test": "^TestVerifC19Real$", "race": True, "may_die": True, "children": {"quick": 2, "thorough": 8}, "cases": {"quick": 14, "thorough": 60}},
@@ -422,6 +425,7 @@ register("C19", title="time safeguard", pkg="./internal/timesafeguard", post_run
                     "clocks, delaying handlers and unreachable peers, with the one-sided oracle only; that main() calls the safeguard before raft starts is "
                     "exercised (not asserted) by the real-binary scenarios of C05, which run with the safeguard enabled")
 register("C18", title="codecs round-trip",
+         rule_more='concurrent GetLog readers under the race detector',
          parts=[{"pkg": "./internal/raftstore", "test": "^TestVerifC18$", "children": {"quick": 8, "thorough": 16}, "cases": {"quick": 15000, "thorough": 300000}},
                 {"pkg": "./internal/outputstream", "test": "^TestVerifC18Batch$", "children": {"quick": 4, "thorough": 8}, "cases": {"quick": 10000, "thorough": 300000}},
                 {"pkg": ".", "test": "^TestVerifC18Readers$", "children": {"quick": 4, "thorough": 16}, "cases": {"quick": 6, "thorough": 60}},
@@ -440,6 +444,7 @@ register("C18", title="codecs round-trip",
 
 
 register("C02", title="compaction / snapshot / restore are invisible", pkg=".",
+         rule_more='JSON-first nodes upgraded at their first restart; compaction horizons at clock steps back',
          parts=[{"test": "^TestVerifC02$", "children": {"quick": 16, "thorough": 16}, "cases": {"quick": 10, "thorough": 190}}],
          timeout={"quick": 400, "thorough": 2400}, level="exploration",
          rule="seeded histories (5-120 entries, index gaps as raft-internal entries leave them) applied through the real FSM with real LevelDB stores and a real "
@@ -453,6 +458,7 @@ register("C02", title="compaction / snapshot / restore are invisible", pkg=".",
 
 
 register("C10", title="retried POST is not applied twice", pkg=".",
+         rule_more="engine monitor: after every client line / message-of-death entry of a live session its marker equals the entry's client message id (histories with clock steps back, both engine layers); a services link retries too; a third of the runs start as a JSON-mode node that is upgraded before the retries; TestVerifC10Follower: a 2-3 node raft in one process with state machines that can be held back, retry on a follower while the leader or another follower lags",
          env={"ROBUSTIRC_TESTING_ENABLE_PANIC_COMMAND": "1"},
          parts=[{"test": "^TestVerifC10$", "children": {"quick": 8, "thorough": 16}, "cases": {"quick": 40, "thorough": 6000}},
                 {"pkg": "./internal/ircserver", "test": "^TestVerifIRC$", "children": {"quick": 6, "thorough": 16}, "cases": {"quick": 150, "thorough": 3000}},
@@ -471,6 +477,7 @@ register("C10", title="retried POST is not applied twice", pkg=".",
 
 
 register("C16", title="configuration updates", pkg=".",
+         rule_more='ban lists and every other field judged on the raw TOML document against the configuration in force; restart from a ban-less snapshot before the first GLINE (node death attributed); a third of the runs JSON-first; the expiration the restarted node compacts with',
          on_fatal=node_on_fatal("C16", "the node died while applying an entry that changes the replicated configuration"),
          parts=[{"test": "^TestVerifC16$", "children": {"quick": 8, "thorough": 16}, "cases": {"quick": 6, "thorough": 400}}],
          timeout={"quick": 400, "thorough": 2400}, level="exploration",
@@ -482,6 +489,7 @@ register("C16", title="configuration updates", pkg=".",
          floor={"quick": 150, "thorough": 2000},
          technique="reference-model oracle over the HTTP API of an in-process node")
 register("C11", title="credentials", pkg=".",
+         rule_more="a session deleted before it registered; bodies naming another session / type / id / address; requests pending while the session with that (predictable) id is created; state replaced in place before the matrix (even seeds); the owner's long-poll stays open during the whole matrix; cluster -auth: every non-public path incl. /debug/* on three real binaries",
          parts=[{"test": "^TestVerifC11$", "children": {"quick": 2, "thorough": 16}, "cases": {"quick": 1, "thorough": 6}},
                 {"cluster": True, "cluster_args": ["-auth"], "children": {"quick": 1, "thorough": 2}, "cases": {"quick": 1, "thorough": 1},
                  "race": {"quick": False, "thorough": False}, "timeout": {"quick": 600, "thorough": 900}}],
@@ -517,6 +525,7 @@ def c07_on_fatal(vc, spec, res, c, recs):
 
 
 register("C07", title="message of death is contained", pkg=".", on_fatal=c07_on_fatal,
+         rule_more='a quarter of the plans in JSON store mode, three quarters with a non-zero message offset; the stored envelope (index, term, type) of every entry is compared with what was appended',
          parts=[{"test": "^TestVerifC07$", "children": {"quick": 8, "thorough": 16}, "cases": {"quick": 12, "thorough": 120}},
                 {"cluster": True, "cluster_args": ["-mod"], "tiers": ["thorough"], "children": {"quick": 0, "thorough": 4}, "cases": {"quick": 1, "thorough": 2},
                  "race": {"quick": False, "thorough": False}, "timeout": {"quick": 900, "thorough": 2400}}],
@@ -661,6 +670,7 @@ def c20_overlay(vc, scr):
 
 
 register("C20", title="no data races", pkg=".", race=True,
+         rule_more='api.go compiled with yield points at the accessor entries, stalled 2 ms while the state is replaced; stale-revision config writers; sweep rounds with a 1 ms expiration; restore rounds with and without bans; first JOIN of churn sessions',
          parts=[{"test": "^TestVerifC20$", "race": True, "may_die": True, "children": {"quick": 6, "thorough": 48}, "cases": {"quick": 2, "thorough": 4},
                  "overlay_hook": c20_overlay, "name": "main_yield"},
                 {"pkg": "./internal/outputstream", "name": "outputstream_real", "test": "^TestVerifC08Real$", "race": True,
@@ -681,6 +691,7 @@ register("C20", title="no data races", pkg=".", race=True,
 
 
 register("C04", title="exactly-once, in-order resume", pkg="./internal/api",
+         rule_more="output stream replaced under an open request; session ended (DELETE/KILL/QUIT) while the caught-up client's request is open; administrative /kill of several sessions with an observer resuming after every message",
          parts=[{"test": "^TestVerifC04$", "children": {"quick": 16, "thorough": 16}, "cases": {"quick": 8, "thorough": 190}},
                 {"pkg": ".", "test": "^TestVerifC04Admin$", "children": {"quick": 2, "thorough": 8}, "cases": {"quick": 3, "thorough": 30}}],
          timeout={"quick": 400, "thorough": 3000}, level="exploration",
@@ -697,6 +708,7 @@ register("C04", title="exactly-once, in-order resume", pkg="./internal/api",
 
 
 register("C05", title="acknowledged messages survive crashes and fail-over", pkg=".",
+         rule_more='senders re-post every fourth acknowledged id; a client changes its nickname every few ms; Persist of the node starts 0/25/60 ms late; in-place raft.Restore (writes quiesced); live and re-fetched streams compared by id and text (numeric 003 masked); cluster: a leader failure under load opens every round; cluster -lag: a follower is away while ~10700 messages are acknowledged, the others snapshot, it is brought back by InstallSnapshot with a request open across the installation and must deliver everything once',
          parts=[{"name": "main", "test": "^TestVerifC05A$", "children": {"quick": 6, "thorough": 16}, "cases": {"quick": 1, "thorough": 12}},
                 {"cluster": True, "children": {"quick": 2, "thorough": 8}, "cases": {"quick": 1, "thorough": 5},
                  "race": {"quick": False, "thorough": True}, "timeout": {"quick": 500, "thorough": 2400}},
@@ -714,3 +726,4 @@ register("C05", title="acknowledged messages survive crashes and fail-over", pkg
               "fetched stream. evaluations = (payload, observer, node) triples judged; distinct = fault-kind combinations / (kills, snapshots, open posts)",
          floor={"quick": 300, "thorough": 5000},
          technique="client-side history checking (unique payloads, open operations kept open) under SIGKILL/SIGSTOP/restart fault injection, single node and 3 real binaries")
+CHECKS["C13"]["rule_more"] = 'own ban table (masks as set, session references resolved at ban time), credentials and limits recorded when a Config entry is applied, own record of accepted captcha tokens'
